@@ -153,6 +153,11 @@ func c12SkipLoops(c *Ctx, p *core.Prog) {
 			pol ^= 1
 		}
 		switch x := cond.(type) {
+		case *ssa.Extract:
+			// `kind, ok := table[p.currentToken.Type]; if ok { … }`: membership of the token in a lookup table
+			if lk, isLk := x.Tuple.(*ssa.Lookup); isLk && lk.CommaOk && x.Index == 1 && fromCurrentToken(lk.Index) {
+				return tokTest{isTest: true, posSucc: pol}
+			}
 		case *ssa.Call:
 			f := x.Call.StaticCallee()
 			if isParserRecv(f) && purePredicate(f, 0) {
